@@ -173,6 +173,35 @@ pub fn check_value<T: Encode<()>>(ty: &str, v: &T, show: &str, rep: &mut Report,
             }
         }
     }
+    // an io::Write with one transient hard fault (WouldBlock / TimedOut / Other) after `at` bytes
+    // that accepts data again afterwards: whatever the encoder does about the fault, success means
+    // the complete encoding arrived and failure leaves a prefix of it (nothing is sent twice)
+    let mut offs: Vec<usize> = (0..=len.min(26)).collect();
+    offs.extend([len / 2, len.saturating_sub(1)]);
+    for (k, at) in offs.into_iter().enumerate() {
+        rep.eval();
+        let r = mon::guarded(|| {
+            let kind = [std::io::ErrorKind::WouldBlock, std::io::ErrorKind::TimedOut, std::io::ErrorKind::Other][k % 3];
+            let mut w = Writer::new(FaultIo { buf: Vec::new(), at, kind, fired: false, chunk: 1 + k % 4 });
+            let r = Encoder::new(&mut w).encode(v).map(|_| ()).map_err(|e| e.is_write());
+            let inner = w.into_inner();
+            (r, inner.buf, inner.fired)
+        });
+        match r {
+            Err(p) => fail(rep, "Writer<faulting io::Write>", "panic", p.message, replay),
+            Ok((r, got, fired)) => {
+                let is_prefix = got.len() <= len && got[..] == reference[..got.len()];
+                match r {
+                    Ok(()) if got == reference => {}
+                    Ok(()) => fail(rep, "Writer<faulting io::Write>", "bytes", format!("success reported, but an io::Write with one transient fault after {} bytes received {} bytes ({}), the encoding of {} has {}", at, got.len(), hex(&got[..got.len().min(40)]), show, len), replay),
+                    Err(true) if is_prefix && fired => rep.count("transient io fault: write error, prefix left behind"),
+                    Err(true) if !fired => fail(rep, "Writer<faulting io::Write>", "fits", "failure although the writer never failed".into(), replay),
+                    Err(true) => fail(rep, "Writer<faulting io::Write>", "prefix", format!("after a fault at byte {} the io::Write holds {} bytes ({}) that are not a prefix of the encoding of {}", at, got.len(), hex(&got[..got.len().min(40)]), show), replay),
+                    Err(false) => fail(rep, "Writer<faulting io::Write>", "error-class", "an io fault reported as a non-write error".into(), replay),
+                }
+            }
+        }
+    }
     // fixed array cursors
     macro_rules! arr {
         ($n:expr) => {{
@@ -231,6 +260,34 @@ impl std::io::Write for ScriptIo {
             return Err(std::io::ErrorKind::Interrupted.into());
         }
         let n = b.len().min(self.cap - self.buf.len()).min(1 + self.calls % 3);
+        self.buf.extend_from_slice(&b[..n]);
+        Ok(n)
+    }
+    fn flush(&mut self) -> std::io::Result<()> {
+        Ok(())
+    }
+}
+
+/// io::Write that takes `chunk` bytes per call and fails exactly once, with a non-retryable error
+/// kind, when `at` bytes have been accepted; afterwards it accepts data again.
+struct FaultIo {
+    buf: Vec<u8>,
+    at: usize,
+    kind: std::io::ErrorKind,
+    fired: bool,
+    chunk: usize,
+}
+
+impl std::io::Write for FaultIo {
+    fn write(&mut self, b: &[u8]) -> std::io::Result<usize> {
+        if !self.fired && self.buf.len() >= self.at {
+            self.fired = true;
+            return Err(self.kind.into());
+        }
+        let mut n = b.len().min(self.chunk);
+        if !self.fired {
+            n = n.min(self.at - self.buf.len());
+        }
         self.buf.extend_from_slice(&b[..n]);
         Ok(n)
     }
